@@ -206,7 +206,14 @@ let ops : numops = {
   fle = (fun a b -> fl a <= fl b);
   is_int = (fun a -> let v = fl a in v = Float.trunc v && Float.abs v < 9223372036854775808.0);
   to_i64 = (fun a -> z_of_int64 (go_int64 (fl a)));
-  of_Z = (fun z -> bits (Int64.to_float (int64_of_z z)));
+  (* float64(int64) for the int64 range; float64(uint64) above it (exact split into two 32-bit halves, one rounding) *)
+  of_Z = (fun z ->
+      match z with
+      | Zpos p when (let u = int64_of_pos p in u < 0L) ->
+        let u = int64_of_pos p in
+        let hi = Int64.to_float (Int64.shift_right_logical u 32) and lo = Int64.to_float (Int64.logand u 0xFFFFFFFFL) in
+        bits (hi *. 4294967296.0 +. lo)
+      | _ -> bits (Int64.to_float (int64_of_z z)));
   of_dec = (fun digits e10 ->
       let b = Buffer.create 32 in
       List.iter (fun c -> Buffer.add_char b (Char.chr (Int64.to_int (int64_of_n c)))) digits;
